@@ -18,6 +18,16 @@ func genCase(t *rapid.T) Case {
 	c.TLS = rapid.SampledFrom([]string{"", "empty", "cert", "cert", "cert13", "cert13"}).Draw(t, "tls")
 	c.Client = rapid.SampledFrom([]string{"plain", "ssl", "ssl", "ssl", "ssl-stuffed-same", "ssl-stuffed-after", "ssl-twice", "ssl-inside-tls", "gss-inside-tls", "cancel-first", "cancel-after-ssl", "cancel-in-tls", "garbage-hello"}).Draw(t, "client")
 	c.Auth = rapid.Bool().Draw(t, "auth")
+	switch rapid.IntRange(0, 5).Draw(t, "limit-kind") {
+	case 0:
+		c.Limit = rapid.SampledFrom([]int{256, 1000, 4096}).Draw(t, "limit")
+		c.BigQuery = rapid.SampledFrom([]int{c.Limit - 1, c.Limit, c.Limit + 1, 2 * c.Limit, 16384, 16385}).Draw(t, "big-query")
+	case 1:
+		c.Limit = 3 << 20
+		c.BigQuery = rapid.SampledFrom([]int{16385, 1<<20 - 1, 1<<20 + 1, 2 << 20}).Draw(t, "big-query")
+	case 2:
+		c.BigQuery = rapid.SampledFrom([]int{16383, 16384, 16385, 20000}).Draw(t, "big-query")
+	}
 	n := rapid.IntRange(0, 10).Draw(t, "nmsgs")
 	for i := 0; i < n; i++ {
 		switch rapid.IntRange(0, 4).Draw(t, "msg") {
